@@ -20,6 +20,7 @@ var c12Routes = []string{
 	"/", "/a", "/{x}", "/a/{x}/b", "/{x}-{y}", "/a.{x}", "/{y: /[0-9]+/}", "/{y: /x+/, z: /y+/}", "/u/{a: /x+/, b: /y+/}/{c}",
 	"/{m: **}", "/{m: **, capture: 2}/e", "/{**}", "/n/?{x}", "/n/?b", "/?{x}", "/{x}/?{y}", "/{x}{y}", "/a+b{x}", "/n/?{m: **}", "/{x}/{y}/{z}",
 	"/{x}/?{y: /a+/, z: /b+/}", "/p{x}q{y}r", "/{g: /(a|b)+/}{x}",
+	"/users/{user-id}/posts/{post.id}", "/{a~b}/{c@d: /x+/}", "/{k=v}-{l+m}", "/t/{(p)}/{**}",
 }
 
 var c12Values = []string{"\x00absent", "v", "", "{x}", "{y}", "{self}", "a/b", "}", "{", "%2F", "x y"}
